@@ -60,6 +60,7 @@ type Module struct {
 
 	callers    map[*ssa.Function][]callSite
 	refs       map[*ssa.Function][]ssa.Instruction
+	chaMemo    map[string]*ssa.Function
 	allFuncs   []*ssa.Function
 	gfCache    map[*ssa.Global]*ssa.Function
 	pdomCache  map[*ssa.Function]*postDom
